@@ -224,6 +224,18 @@ async def fresh_env():
         single = Account.from_dict(env.ledger, env.wallet, {"seed": SEEDS[2], "address_generator": {"name": "single-address"}})
         await single.ensure_address_gap()
         env.accounts.append(single)
+        # a watch-only account (extended public key only) that never receives anything: it is simply there, as in many wallets
+        tmp = Account.from_dict(env.ledger, env.wallet, {"seed": SEEDS[1] + " watch", "address_generator": {
+            "name": "deterministic-chain", "receiving": {"gap": 2, "maximum_uses_per_address": 1},
+            "change": {"gap": 1, "maximum_uses_per_address": 1}}})
+        xpub = tmp.public_key.extended_key_string()
+        env.wallet.accounts.remove(tmp)
+        watch = Account.from_dict(env.ledger, env.wallet, {"public_key": xpub, "address_generator": {
+            "name": "deterministic-chain", "receiving": {"gap": 2, "maximum_uses_per_address": 1},
+            "change": {"gap": 1, "maximum_uses_per_address": 1}}})
+        assert watch.private_key is None and not watch.encrypted
+        await watch.ensure_address_gap()
+        env.accounts.append(watch)
         for acc in env.accounts:
             env.ledger.add_account(acc)
         await env.ledger.headers.open()
@@ -601,7 +613,13 @@ async def run_async(case, out):
             addr, h, n = pick_address(op["acct"], op["chain"], op["k"])
             claim_counter[0] += 1
             c = Claim()
-            c.stream.title = "c%d" % claim_counter[0]
+            if op["amount"] % 3 == 0:
+                # a channel claim (of this wallet or anybody's): the ledger looks at every account's channel keys for it
+                c.channel.public_key_bytes = b"\x02" + hashlib.sha256(b"chan%d" % claim_counter[0]).digest()
+                c.channel.title = "ch%d" % claim_counter[0]
+                out.label("channel_claim")
+            else:
+                c.stream.title = "c%d" % claim_counter[0]
             o = Output.pay_claim_name_pubkey_hash(op["amount"], "name%d" % claim_counter[0], c, h)
             assemble([external_input(op["amount"] + 10000)], [], [(o, (op["amount"], "claim", h))], op)
             out.label("claim")
@@ -698,5 +716,5 @@ PARTS = [
     Part("burst", burst_case, run_case, 300, 3000, quick_shards=8, thorough_shards=16, essential=("burst_same_address",)),
     Part("sync", case_strategy, run_case, 300, 3000, quick_shards=8, thorough_shards=16,
          essential=("concurrent", "spend", "claim", "support", "abandon", "mine", "fund_gap3", "spend_unconfirmed_parent",
-                    "third:multisig", "third:random", "single_key_account", "burst_same_address", "max_uses:2", "via_process_status_update", "reconnect")),
+                    "third:multisig", "third:random", "single_key_account", "burst_same_address", "max_uses:2", "via_process_status_update", "reconnect", "channel_claim")),
 ]
